@@ -24,7 +24,7 @@ MECHANISMS = [
     ('TotalDepth.common.Slice', 'Sample.gen_indices'), ('TotalDepth.common.Slice', 'Sample.count'),
     ('TotalDepth.common.Slice', 'create_slice_or_sample'),
 ]
-REQUIRED_MONITORS = ['slice_vs_python', 'sample_definition', 'parser_accepts', 'parser_rejects', 'shared_object_interleaved', 'option_via_argparse',
+REQUIRED_MONITORS = ['slice_vs_python', 'sample_definition', 'returned_list_is_the_callers', 'parser_accepts', 'parser_rejects', 'shared_object_interleaved', 'option_via_argparse',
                      'contract:Slice.indices', 'contract:Slice.count']
 MIN_NONTRIVIAL = {'quick': 20000, 'thorough': 150000}
 N_FOR = {'quick': 9, 'thorough': 14}
@@ -63,6 +63,17 @@ def check_slice(rec, S, a, b, c, n, sl=None):
             got = sl.indices(n)
             if got != exp:
                 rec.violation('slice_vs_python', 'indices', 'Slice(%r,%r,%r).indices(%d)=%r expected %r' % (a, b, c, n, got[:30], exp[:30]), dict(w, got=got[:30]))
+            elif len(exp) <= 1000 and isinstance(got, list):
+                # the list is the caller's: whatever the caller does to it, the same question asked again (of this object and
+                # of an equal, fresh one) has the same answer
+                what = 'indices-after-the-caller-edited-the-list'
+                rec.mon('returned_list_is_the_callers')
+                got.append(-12345)
+                del got[:1]
+                again, fresh, cnt2 = sl.indices(n), S.Slice(a, b, c).indices(n), sl.count(n)
+                if again != exp or fresh != exp or cnt2 != len(exp):
+                    rec.violation('returned_list_is_the_callers', 'aliased', 'Slice(%r,%r,%r).indices(%d): after the caller edited the list it was given, indices() gives %r (a fresh equal Slice %r, count() %r), expected %r' % (
+                        a, b, c, n, again[:30], fresh[:30], cnt2, exp[:30]), dict(w, again=again[:30], fresh=fresh[:30], count=cnt2))
         if exp:
             what = 'first'
             f = sl.first(n)
@@ -113,6 +124,15 @@ def check_sample(rec, S, k, n, sm=None):
             got = sm.indices(n)
             if gen != got:
                 rec.violation('sample_definition', 'gen_vs_list', 'Sample(%d) on %d: gen_indices %r != indices %r' % (k, n, gen[:30], got[:30]), w)
+            elif len(gen) <= 1000 and isinstance(got, list):
+                what = 'indices-after-the-caller-edited-the-list'
+                rec.mon('returned_list_is_the_callers')
+                got.append(-12345)
+                del got[:1]
+                again, fresh, cnt2 = sm.indices(n), S.Sample(k).indices(n), sm.count(n)
+                if again != gen or fresh != gen or cnt2 != len(gen):
+                    rec.violation('returned_list_is_the_callers', 'aliased', 'Sample(%d).indices(%d): after the caller edited the list it was given, indices() gives %r (a fresh equal Sample %r, count() %r), expected %r' % (
+                        k, n, again[:30], fresh[:30], cnt2, gen[:30]), dict(w, again=again[:30], fresh=fresh[:30], count=cnt2))
         what = 'first'
         if gen and sm.first(n) != gen[0]:
             rec.violation('sample_definition', 'first', 'Sample(%d).first(%d)=%r' % (k, n, sm.first(n)), w)
